@@ -56,8 +56,14 @@ def _groups(tier, seed):
         tersel += [(("mul2", "Reg0", "Reg1", "Imm"), "u64")]
         binsel += [(t, rnd.choice(["u16", "u32"])) for t in rnd.sample(allbin, 2)]
     else:
-        binsel = [(t, w) for t in allbin for w in ("u8", "u64")] + [(t, w) for t in rnd.sample(allbin, 24) for w in ("u16", "u32")]
-        tersel = [(t, "u8") for t in allter] + [(t, "u64") for t in rnd.sample(allter, 160)] + \
+        # a 64-bit product with a CONSTANT operand (Zero / One / NegOne) does not finish in CBMC: the
+        # real op sees the constant at compile time (and the multiplier is simplified away), the
+        # contract function only during symbolic execution -- two structurally different circuits.
+        # Those instantiations are stated at 32 bits instead (same code, generic in the width).
+        def wide(t):
+            return "u32" if t[0] in ("mul", "mul2") and any(x in ("Zero", "One", "NegOne") for x in t[2:]) else "u64"
+        binsel = [(t, "u8") for t in allbin] + [(t, wide(t)) for t in allbin] + [(t, w) for t in rnd.sample(allbin, 24) for w in ("u16", "u32")]
+        tersel = [(t, "u8") for t in allter] + [(t, wide(t)) for t in rnd.sample(allter, 160)] + \
                  [(t, w) for t in rnd.sample(allter, 24) for w in ("u16", "u32")]
     seen = set()
     for (op, d, s), w in binsel:
